@@ -107,13 +107,13 @@ theorem phase_covers (multi : List Cmd) (o : Opt) (cache hasInit : Bool) (attemp
   obtain ⟨s1, _, _⟩ := answerAll_spec cc.addr (es.map (·.2)) (logCall w { conn := cc, kind := kind, items := items })
   exact resultFn_covers multi o cache hasInit attempts cc es _ a hes (by rw [s1]; simp) hres
 
-theorem doRetry_covers (multi : List Cmd) (o : Opt) (cache hasInit : Bool) (attempts : Nat) (cc : Conn) (re : Retry)
+theorem doRetryCore_covers (multi : List Cmd) (o : Opt) (cache hasInit : Bool) (attempts : Nat) (cc : Conn) (re : Retry)
     (h1 : EntriesOK multi re.cmds) (h2 : EntriesOK multi re.asks) (a : Acc) (w : World)
     (hres : a.results.length = multi.length) :
-    (doRetry o cache hasInit attempts cc re a w).1.results.length = multi.length ∧
-    (∀ k, Has a.results k → Has (doRetry o cache hasInit attempts cc re a w).1.results k) ∧
-    (∀ e ∈ re.cmds ++ re.asks, Has (doRetry o cache hasInit attempts cc re a w).1.results e.1) := by
-  unfold doRetry
+    (doRetryCore o cache hasInit attempts cc re a w).1.results.length = multi.length ∧
+    (∀ k, Has a.results k → Has (doRetryCore o cache hasInit attempts cc re a w).1.results k) ∧
+    (∀ e ∈ re.cmds ++ re.asks, Has (doRetryCore o cache hasInit attempts cc re a w).1.results e.1) := by
+  unfold doRetryCore
   simp only
   by_cases hc : re.cmds ≠ []
   · rw [if_pos hc]
@@ -150,6 +150,15 @@ theorem doRetry_covers (multi : List Cmd) (o : Opt) (cache hasInit : Bool) (atte
       intro e he
       rw [hn, hn2] at he
       cases he
+
+theorem doRetry_covers (multi : List Cmd) (o : Opt) (cache hasInit : Bool) (attempts : Nat) (cc : Conn) (re : Retry)
+    (h1 : EntriesOK multi re.cmds) (h2 : EntriesOK multi re.asks) (a : Acc) (w : World)
+    (hres : a.results.length = multi.length) :
+    (doRetry o cache hasInit attempts cc re a w).1.results.length = multi.length ∧
+    (∀ k, Has a.results k → Has (doRetry o cache hasInit attempts cc re a w).1.results k) ∧
+    (∀ e ∈ re.cmds ++ re.asks, Has (doRetry o cache hasInit attempts cc re a w).1.results e.1) := by
+  rw [(doRetry_fst o cache hasInit attempts cc re a w).1]
+  exact doRetryCore_covers multi o cache hasInit attempts cc re h1 h2 a w hres
 
 theorem runRound_covers (multi : List Cmd) (o : Opt) (cache hasInit : Bool) (attempts : Nat) :
     ∀ (p : Pending) (a : Acc) (w : World), PendOK multi p → a.results.length = multi.length →
